@@ -339,6 +339,292 @@ fn faults(rep: &mut Report, input: &[u8], q: &Q, _rng: &mut Rng, src_tag: &str) 
     }
 }
 
+// ------------------------------------------------------ named entry points
+//
+// Every convenience entry point is documented as its `_custom` sibling with a
+// named option set. All of them must give the outcome the byte-slice `_custom`
+// call gives on the same bytes (the source-independence clause covers the
+// named functions as much as the customisable ones).
+
+fn check_error_predicates(rep: &mut Report, e: &lexpr::parse::Error, input: &[u8], via: &str) -> bool {
+    use lexpr::parse::error::Category;
+    let c = e.classify();
+    let ok = e.is_io() == (c == Category::Io) && e.is_syntax() == (c == Category::Syntax) && e.is_eof() == (c == Category::Eof) && (e.is_io() as u8 + e.is_syntax() as u8 + e.is_eof() as u8) == 1;
+    let dbg = format!("{:?}", e);
+    let disp = e.to_string();
+    rep.eval();
+    if !ok || dbg.is_empty() || disp.is_empty() {
+        rep.violation(
+            "entry-points",
+            "C06:error-predicates-disagree-with-classify".into(),
+            format!("{} on {:?}: classify()={:?} but is_io={} is_syntax={} is_eof={}; Debug={:?}", via, show(input), c, e.is_io(), e.is_syntax(), e.is_eof(), dbg),
+            json!({"input_hex": hex(input), "via": via}),
+        );
+        return false;
+    }
+    true
+}
+
+#[allow(deprecated)]
+fn entry_points(rep: &mut Report, input: &[u8], rng: &mut Rng, src_tag: &str) {
+    let as_str = std::str::from_utf8(input).ok();
+    for elisp in [false, true] {
+        let q = if elisp { Q::elisp() } else { Q::default_() };
+        let o = q.to_lexpr();
+        let reference = Outcome::of(lexpr::from_slice_custom(input, o));
+        rep.count(&format!("entry:{}:{}", if elisp { "elisp" } else { "default" }, reference.class().split(':').next().unwrap_or("")));
+        let mut got: Vec<(&'static str, Outcome)> = Vec::new();
+        let rdr = |rng: &mut Rng| ChunkReader::new(input, Chunking::Random, true, rng.fork());
+        let dv = |r: Result<lexpr::Datum, lexpr::parse::Error>| Outcome::of(r.map(|d| d.value().clone()));
+        if elisp {
+            got.push(("lexpr::from_slice_elisp", Outcome::of(lexpr::parse::from_slice_elisp(input))));
+            got.push(("lexpr::from_reader_elisp", Outcome::of(lexpr::parse::from_reader_elisp(rdr(rng)))));
+            got.push(("lexpr::datum::from_slice_elisp", dv(lexpr::datum::from_slice_elisp(input))));
+            got.push(("lexpr::datum::from_reader_elisp", dv(lexpr::datum::from_reader_elisp(rdr(rng)))));
+            got.push(("lexpr::from_slice_custom(Options::elisp())", Outcome::of(lexpr::from_slice_custom(input, Options::elisp()))));
+            if let Some(s) = as_str {
+                got.push(("lexpr::from_str_elisp", Outcome::of(lexpr::parse::from_str_elisp(s))));
+                got.push(("lexpr::datum::from_str_elisp", dv(lexpr::datum::from_str_elisp(s))));
+            }
+        } else {
+            got.push(("lexpr::from_slice", Outcome::of(lexpr::from_slice(input))));
+            got.push(("lexpr::from_reader", Outcome::of(lexpr::from_reader(rdr(rng)))));
+            got.push(("lexpr::datum::from_slice", dv(lexpr::datum::from_slice(input))));
+            got.push(("lexpr::datum::from_reader", dv(lexpr::datum::from_reader(rdr(rng)))));
+            got.push(("lexpr::from_slice_custom(Options::default())", Outcome::of(lexpr::from_slice_custom(input, Options::default()))));
+            // the parser constructors without options, with the current and the deprecated method names
+            let one = |r: Result<Value, lexpr::parse::Error>, end: Result<(), lexpr::parse::Error>| Outcome::of(r.and_then(|v| end.map(|_| v)));
+            {
+                let mut p = Parser::from_slice(input);
+                let r = p.expect_value();
+                let e = if r.is_ok() { p.expect_end() } else { Ok(()) };
+                got.push(("Parser::from_slice.expect_value+expect_end", one(r, e)));
+            }
+            {
+                let mut p = Parser::from_slice(input);
+                let r = p.parse_value();
+                let e = if r.is_ok() { p.end() } else { Ok(()) };
+                got.push(("Parser::from_slice.parse_value+end (deprecated names)", one(r, e)));
+            }
+            {
+                let mut p = Parser::from_reader(rdr(rng));
+                let r = p.expect_value();
+                let e = if r.is_ok() { p.expect_end() } else { Ok(()) };
+                got.push(("Parser::from_reader.expect_value+expect_end", one(r, e)));
+            }
+            {
+                // parse() is the deprecated name of next_value(): None at end of input
+                let mut a = Parser::from_slice(input);
+                let mut b = Parser::from_slice_custom(input, o);
+                let mut same = true;
+                for _ in 0..50 {
+                    let (x, y) = (a.parse(), b.next_value());
+                    let (ox, oy) = (x.map(|v| v.map_or(Outcome::End, Outcome::Ok)).unwrap_or_else(|e| Outcome::of_err(&e)), y.map(|v| v.map_or(Outcome::End, Outcome::Ok)).unwrap_or_else(|e| Outcome::of_err(&e)));
+                    same &= ox.same(&oy);
+                    if !same || !matches!(ox, Outcome::Ok(_)) {
+                        break;
+                    }
+                }
+                rep.eval();
+                if !same {
+                    rep.violation("entry-points", "C06:entry-point-differs:Parser::parse".into(), format!("Parser::from_slice(..).parse() and Parser::from_slice_custom(.., default).next_value() diverge on {:?}", show(input)), json!({"input_hex": hex(input), "generator": src_tag}));
+                    return;
+                }
+            }
+            if let Some(s) = as_str {
+                got.push(("lexpr::from_str", Outcome::of(lexpr::from_str(s))));
+                got.push(("lexpr::datum::from_str", dv(lexpr::datum::from_str(s))));
+                let mut p = Parser::from_str(s);
+                let r = p.expect_value();
+                let e = if r.is_ok() { p.expect_end() } else { Ok(()) };
+                got.push(("Parser::from_str.expect_value+expect_end", one(r, e)));
+            }
+        }
+        for (name, oc) in got.iter() {
+            rep.eval();
+            rep.distinct(hash2(hash_bytes(input), hash_bytes(name.as_bytes())));
+            if !reference.same(oc) {
+                rep.violation(
+                    "entry-points",
+                    format!("C06:entry-point-differs:{}:custom={}|named={}", name, reference.class(), oc.class()),
+                    format!("on {:?}: from_slice_custom with the {} option set gives {} but {} gives {}", show(input), if elisp { "Emacs Lisp" } else { "default" }, reference.brief(), name, oc.brief()),
+                    json!({"input_hex": hex(input), "entry": name, "generator": src_tag}),
+                );
+                return;
+            }
+        }
+        if let Err(e) = lexpr::from_slice_custom(input, o) {
+            if !check_error_predicates(rep, &e, input, "from_slice_custom") {
+                return;
+            }
+        }
+    }
+    // an injected stream failure through the named stream entry points: same
+    // outcome as the `_custom` sibling under the same fault (which the
+    // fault-every-offset set judges against the twin-run oracle)
+    let k = rng.below(input.len() + 1);
+    let (od, oe) = (Q::default_().to_lexpr(), Q::elisp().to_lexpr());
+    let dv = |r: Result<lexpr::Datum, lexpr::parse::Error>| r.map(|d| d.value().clone());
+    for (name, r, want) in [
+        ("lexpr::from_reader", lexpr::from_reader(FaultReader::new(input, k)), lexpr::from_reader_custom(FaultReader::new(input, k), od)),
+        ("lexpr::from_reader_elisp", lexpr::parse::from_reader_elisp(FaultReader::new(input, k)), lexpr::from_reader_custom(FaultReader::new(input, k), oe)),
+        ("lexpr::datum::from_reader", dv(lexpr::datum::from_reader(FaultReader::new(input, k))), dv(lexpr::datum::from_reader_custom(FaultReader::new(input, k), od))),
+        ("lexpr::datum::from_reader_elisp", dv(lexpr::datum::from_reader_elisp(FaultReader::new(input, k))), dv(lexpr::datum::from_reader_custom(FaultReader::new(input, k), oe))),
+    ] {
+        rep.eval();
+        if let Err(e) = &r {
+            if !check_error_predicates(rep, e, input, name) {
+                return;
+            }
+            if e.is_io() {
+                rep.count("entry:fault-surfaced-as-io");
+            }
+        }
+        let (a, b) = (Outcome::of(r), Outcome::of(want));
+        if !a.same(&b) || a.is_injected_io() != b.is_injected_io() {
+            rep.violation(
+                "entry-points",
+                format!("C06:fault:named-entry-point-differs:{}", name),
+                format!("{} on {:?} with a hard read error at offset {}: {} but the _custom sibling gives {}", name, show(input), k, a.brief(), b.brief()),
+                json!({"input_hex": hex(input), "offset": k, "entry": name}),
+            );
+            return;
+        }
+    }
+}
+
+/// The Serde text layer's stream entry points delegate to the stream parser:
+/// a read failure must surface through them as an Io-category error that
+/// carries the injected error (source chain) and converts back into it.
+#[cfg(feature = "full")]
+fn serde_stream_faults(rep: &mut Report, input: &[u8], rng: &mut Rng) {
+    use serde_lexpr::error::Category;
+    let k = rng.below(input.len() + 1);
+    let kind = *rng.pick(FAULT_KINDS);
+    for elisp in [false, true] {
+        let o = if elisp { Q::elisp().to_lexpr() } else { Q::default_().to_lexpr() };
+        let want = Outcome::of(lexpr::from_reader_custom(FaultReader::with_kind(input, k, kind), o));
+        let name = if elisp { "serde_lexpr::from_reader_custom(elisp)" } else { "serde_lexpr::from_reader" };
+        let run = || {
+            if elisp {
+                serde_lexpr::from_reader_custom::<Vec<i64>>(FaultReader::with_kind(input, k, kind), o)
+            } else {
+                serde_lexpr::from_reader::<Vec<i64>>(FaultReader::with_kind(input, k, kind))
+            }
+        };
+        rep.eval();
+        let got = crate::mon::panics::guarded(run);
+        let got = match got {
+            Ok(g) => g,
+            Err(p) => {
+                rep.violation("serde-stream", format!("C06:serde-stream:panic:{}", p.sig()), format!("{} on {:?} with a read error at {}: {}", name, show(input), k, p.short()), json!({"input_hex": hex(input), "offset": k}));
+                return;
+            }
+        };
+        let mut fail = |what: &str, detail: String, rep: &mut Report| {
+            rep.violation("serde-stream", format!("C06:serde-stream:{}", what), format!("{} on {:?} with a hard read error ({:?}) at offset {}: {}", name, show(input), kind, k, detail), json!({"input_hex": hex(input), "offset": k, "elisp": elisp}));
+        };
+        match (&want, &got) {
+            (Outcome::Err { cat: "io", .. }, Err(e)) => {
+                rep.count("serde-stream:io-surfaced");
+                // category, source chain, conversion
+                if e.classify() != Category::Io {
+                    fail("io-error-not-io-category", format!("classify() = {:?}", e.classify()), rep);
+                    return;
+                }
+                let mut chain = Vec::new();
+                let mut cur: Option<&(dyn std::error::Error + 'static)> = Some(e);
+                while let Some(c) = cur {
+                    chain.push(c.to_string());
+                    cur = c.source();
+                }
+                if !chain.iter().any(|m| m.contains(MARKER)) {
+                    fail("io-error-lost-source", format!("source chain {:?} does not carry the injected error", chain), rep);
+                    return;
+                }
+                if e.location().is_some() && e.to_string().is_empty() {
+                    fail("empty-display", String::new(), rep);
+                    return;
+                }
+                let _ = format!("{:?}", e);
+                let conv = crate::mon::panics::guarded(|| {
+                    let e2 = run().err().expect("same reader, same outcome");
+                    std::io::Error::from(e2)
+                });
+                rep.eval();
+                match conv {
+                    Ok(ioe) => {
+                        if ioe.kind() != kind || !ioe.to_string().contains(MARKER) {
+                            fail("io-conversion-loses-error", format!("io::Error::from(error) is {:?}, not the injected error", ioe), rep);
+                            return;
+                        }
+                        rep.count("serde-stream:io-conversion-ok");
+                    }
+                    Err(p) => {
+                        fail(&format!("io-conversion-panics:{}", p.sig()), format!("io::Error::from(error) panics: {}", p.short()), rep);
+                        return;
+                    }
+                }
+            }
+            (Outcome::Err { cat: "io", .. }, Ok(v)) => {
+                fail("swallowed-into-ok", format!("Ok({:?})", v), rep);
+                return;
+            }
+            (Outcome::Ok(a), got) => {
+                // the parse was not affected by the fault: same as deserializing the parsed value
+                let direct = serde_lexpr::from_value::<Vec<i64>>(a);
+                let same = match (&direct, got) {
+                    (Ok(x), Ok(y)) => x == y,
+                    (Err(_), Err(e)) => e.classify() == Category::Data,
+                    _ => false,
+                };
+                if !same {
+                    fail("value-differs", format!("from_value on the parsed value gives {:?} but the stream entry point gives {:?}", direct.map_err(|e| e.to_string()), got.as_ref().map_err(|e| e.to_string())), rep);
+                    return;
+                }
+                rep.count("serde-stream:unaffected");
+            }
+            (Outcome::Err { cat, .. }, Err(e)) => {
+                let c = match e.classify() {
+                    Category::Io => "io",
+                    Category::Syntax => "syntax",
+                    Category::Eof => "eof",
+                    Category::Data => "data",
+                };
+                if c != *cat {
+                    fail("category-differs", format!("lexpr gives {} but serde_lexpr classifies {}", cat, c), rep);
+                    return;
+                }
+                // non-io conversions: Syntax -> InvalidData, Eof -> UnexpectedEof (documented)
+                let loc_ok = e.location().is_some();
+                let conv = crate::mon::panics::guarded(|| std::io::Error::from(run().err().expect("same outcome")));
+                rep.eval();
+                match conv {
+                    Ok(ioe) => {
+                        let want_kind = if c == "eof" { std::io::ErrorKind::UnexpectedEof } else { std::io::ErrorKind::InvalidData };
+                        if ioe.kind() != want_kind || !loc_ok {
+                            fail("conversion-kind", format!("io::Error::from gives kind {:?} for a {} error (location present: {})", ioe.kind(), c, loc_ok), rep);
+                            return;
+                        }
+                        rep.count("serde-stream:non-io-conversion-ok");
+                    }
+                    Err(p) => {
+                        fail(&format!("io-conversion-panics:{}", p.sig()), p.short(), rep);
+                        return;
+                    }
+                }
+            }
+            (w, g) => {
+                fail("outcome-differs", format!("lexpr::from_reader_custom gives {} but the Serde entry point gives {:?}", w.brief(), g.as_ref().map_err(|e| e.to_string())), rep);
+                return;
+            }
+        }
+    }
+}
+
+#[cfg(not(feature = "full"))]
+fn serde_stream_faults(_rep: &mut Report, _input: &[u8], _rng: &mut Rng) {}
+
 const CONTINUATIONS: &[&[u8]] = &[b"", b" ", b"a", b")", b"]", b"\"", b"0", b";", b"\\", b"#", b"\xff", b"(", b".", b"\n", b"e1", b"|"];
 
 /// Do all continuations of `prefix` give `want` as outcome of item `i`?
@@ -430,6 +716,16 @@ pub fn sets(ctx: &Ctx) -> Vec<CaseSet> {
             rep.max("max_fault_input_len", input.len() as u64);
             faults(rep, &input, &q, rng, tag);
             sample_if_room(rep, || json!({"clause": "fault at every offset", "input": show(&input), "offsets": input.len() + 1, "options": q.describe()}));
+        }),
+    ));
+    let (tb3, cfg3) = (tb.clone(), cfg.clone());
+    out.push(CaseSet::new(
+        "named-entry-points",
+        ctx.size(6_000, 250_000),
+        Box::new(move |rep, rng, _| {
+            let (input, _q, tag) = gen_input(rng, &tb3, &cfg3, 300);
+            entry_points(rep, &input, rng, tag);
+            serde_stream_faults(rep, &input, rng);
         }),
     ));
     out
